@@ -783,6 +783,7 @@ theorem C07_gen_writer_logic :
     BiotiteModel.Gen.C07Logic.int64Casts = ["array.atom_id", "array.get_annotation(category)"] ∧
     BiotiteModel.Gen.C07Logic.solventList = ["HOH", "SOL"] ∧
     BiotiteModel.Gen.C07Logic.conectPerRecord = 4 ∧
+    BiotiteModel.Gen.C07Logic.setBondsArgs = ["BondList(array.array_length(),bond_array)", "pdb_atom_id"] ∧
     BiotiteModel.Gen.C07Logic.conectParts = [["CONECT", "{>5}"], ["{>5}"]] ∧
     -- the model at the boundaries these literals decide
     wrapId 99999 0 = 0 ∧ wrapId 99999 1 = 1 ∧ wrapId 99999 99999 = 99999 ∧ wrapId 99999 100000 = 1 ∧ wrapId 99999 (-5) = -5 ∧
